@@ -409,6 +409,41 @@ func runC12(c *fw.Ctx) {
 			c.Sample(map[string]any{"case": id, "input": input(), "outcome": e.out.Summary(), "error": fmt.Sprint(e.out.Err)})
 		}
 	}
+	// ---- (a') a percentage above 100 with every number of decimals 0..70, as a variable and in metadata ----
+	for d := 0; d <= 70; d++ {
+		id := "portion-decimals/" + itoa(d)
+		if !c.Want(900_000_0+d, id) {
+			continue
+		}
+		text := "150"
+		if d > 0 {
+			text += "." + strings.Repeat("0", d-1) + "1"
+		}
+		text += "%"
+		for variant := 0; variant < 2; variant++ {
+			sc := &gen.Script{Vars: []*gen.VarDecl{{Type: "portion", Name: "p"}}, Stmts: []gen.Stmt{
+				&gen.Send{Sent: &gen.SentValue{E: gen.M("USD", "10")}, Src: gen.SA("world"), Dst: &gen.DstAllot{Items: []*gen.DstAllotItem{{A: &gen.AllotVar{V: gen.V("p")}, To: gen.To(gen.DA("x"))}, {A: &gen.AllotRemaining{}, To: &gen.KOD{Kept: true}}}}}}}
+			cs := mkCase(sc, map[string]string{"p": text}, nil)
+			if variant == 1 {
+				sc.Vars[0].Origin = &gen.Call{Name: "meta", Args: []gen.Expr{gen.A("cfg"), gen.S("p")}}
+				cs.Meta = map[string]map[string]string{"cfg": {"p": text}}
+				delete(cs.Vars, "p")
+			}
+			e, ok := run(c, cs)
+			if !ok {
+				continue
+			}
+			c.Count("over_100_percent_texts", 1)
+			if e.out.Panicked {
+				c.Violation("panic:"+e.out.Frame, fmt.Sprintf("portion text %q: panic %s", text, e.out.PanicVal), e.input())
+				return
+			}
+			if e.out.OK() || e.out.Class != model.EBadPortion {
+				c.Violation("wrong-outcome:portion-above-one", fmt.Sprintf("portion text %q (above 100%%): expected an invalid-portion error, got %s", text, e.out.Summary()), e.input())
+				return
+			}
+		}
+	}
 	// ---- (b) store-fault enumeration ----
 	scfg := with(func(l *gen.LCfg) { l.POriginVar, l.PAbsent, l.MaxStmts = 50, 5, 3 })
 	n = c.N(20000, 400000)
